@@ -516,10 +516,11 @@ def get_mutators():
 def is_relevant(node):
     """Checks whether this theory might be relevant for this node."""
     if node.has_ident():
-        if node.get_ident() in ['declare-const']:
+        if node.get_ident() in ['declare-const'] and len(node) > 2:
             if nodes.contains(node[2], is_bv_sort):
                 return True
-        elif node.get_ident() in ['declare-fun', 'define-fun', 'define-sort']:
+        elif node.get_ident() in ['declare-fun', 'define-fun', 'define-sort'
+                                  ] and len(node) > 3:
             if nodes.contains(node[3], is_bv_sort):
                 return True
     return False
